@@ -89,11 +89,23 @@ impl LocalEnv {
     /// where different `LocalEnv`'s can be created, and the result is decided at runtime.
     /// The compile-time type must be the union of the options.
     pub(crate) fn merge(mut self, other: Self) -> Self {
+        // A variable bound on one side only may be unset at runtime, where it reads as `null`.
+        let unset = || Details {
+            type_def: TypeDef::null(),
+            value: None,
+        };
+
+        for (ident, self_details) in &mut self.bindings {
+            if !other.bindings.contains_key(ident) {
+                *self_details = self_details.clone().merge(unset());
+            }
+        }
+
         for (ident, other_details) in other.bindings {
             if let Some(self_details) = self.bindings.get_mut(&ident) {
                 *self_details = self_details.clone().merge(other_details);
             } else {
-                self.bindings.insert(ident, other_details);
+                self.bindings.insert(ident, other_details.merge(unset()));
             }
         }
         self
